@@ -28,6 +28,8 @@ hval = z3.Function("hval", Name, Val)
 pos = z3.Function("pos", Name, z3.IntSort())               # a topological numbering
 Sem = z3.Function("Sem", Name, View, Val)
 F = z3.Function("F", Name, View, Val)                      # LinkedVariable.compute on a cache
+vadd = z3.Function("vadd", Val, Val, Val)                  # tensor addition on abstract values
+vindex_put = z3.Function("vindex_put", Val, z3.IntSort(), z3.IntSort(), z3.IntSort(), Val, z3.BoolSort(), Val)
 
 
 def _val_wrap(e):
@@ -82,6 +84,13 @@ def axioms():
             z3.And(z3.ForAll([a], z3.Implies(z3.And(anc(a, n), indep(a)), I[a] == J[a])),
                    z3.Implies(indep(n), I[n] == J[n])),
             Sem(n, I) == Sem(n, J))),
+        # tensor arithmetic on set values gives a value
+        z3.ForAll([z3.Const("va", Val), z3.Const("vb", Val)],
+                  z3.Implies(z3.And(z3.Const("va", Val) != NONE, z3.Const("vb", Val) != NONE),
+                             vadd(z3.Const("va", Val), z3.Const("vb", Val)) != NONE)),
+        z3.ForAll([z3.Const("va", Val), z3.Const("vb", Val), z3.Int("k0"), z3.Int("k1"), z3.Int("k2"), z3.Bool("kb")],
+                  z3.Implies(z3.And(z3.Const("va", Val) != NONE, z3.Const("vb", Val) != NONE),
+                             vindex_put(z3.Const("va", Val), z3.Int("k0"), z3.Int("k1"), z3.Int("k2"), z3.Const("vb", Val), z3.Bool("kb")) != NONE)),
     ]
     return ax
 
@@ -246,4 +255,72 @@ def make_state(cx, fork="none", last_fork=False, label="state"):
 
 
 def engine_setup(eng):
+    import ast as _ast
     eng.declare_none(Val, NONE)
+
+    def val_binop(op, a, b):
+        if op is _ast.Add and isinstance(a, SV) and isinstance(b, SV) and a.kind == b.kind == "u:Val":
+            return SV(vadd(a.e, b.e), "u:Val")
+        return None
+    eng.binop_hooks.append(val_binop)
+
+    def val_attr(it, obj, name):
+        if isinstance(obj, SV) and obj.kind == "u:Val" and name == "index_put":
+            def index_put(it_, indices=None, values=None, accumulate=False):
+                # out-of-place Tensor/WeightedTensor.index_put with scalar index tensors (at most 2 of them)
+                from pyvc.tensor import STensor
+                idx = []
+                for t in indices:
+                    if not (isinstance(t, STensor) and t.ndim == 0):
+                        raise OutOfSubset("index_put with non-scalar index")
+                    idx.append(t.fn(()))
+                if len(idx) > 2:
+                    raise OutOfSubset("index_put with more than two indices")
+                while len(idx) < 2:
+                    idx.append(z3.IntVal(-1))
+                acc = accumulate.e if isinstance(accumulate, SV) else z3.BoolVal(bool(accumulate))
+                return SV(vindex_put(obj.e, z3.IntVal(len(indices)), idx[0], idx[1], _val_unwrap(values), acc), "u:Val")
+            return SymCallable(index_put, "Tensor.index_put")
+        return None
+    eng.attr_hooks.append(val_attr)
+
+
+# ---------------------------------------------------------------------------------------------------
+# row structure of values carrying the individual axis (used by the partial-revert lemma, C02, C07)
+elem = z3.Function("elem", Val, z3.IntSort(), z3.IntSort(), z3.RealSort())   # entry (individual i, flattened rest r)
+indiv = z3.Function("indiv", Name, z3.BoolSort())                             # the variable carries the individual axis
+rowmask = z3.Function("mask", z3.IntSort(), z3.BoolSort())
+Blend = z3.Function("B", Val, Val, Val)                                       # result of State._select(mask, old, cur)
+
+
+def agree_row(I, J, c, i):
+    """views I, J agree on everything row i of variable c may depend on"""
+    a = z3.Const("a_row", Name)
+    r = z3.Int("r_row")
+    return z3.ForAll([a], z3.Implies(
+        z3.And(indep(a), z3.Or(a == c, anc(a, c))),
+        z3.And(z3.Implies(indiv(a), z3.ForAll([r], elem(I[a], i, r) == elem(J[a], i, r))),
+               z3.Implies(z3.Not(indiv(a)), I[a] == J[a]))))
+
+
+def row_axioms():
+    m, a = z3.Consts("m_r a_r", Name)
+    I, J = z3.Consts("I_r J_r", View)
+    v, w = z3.Consts("v_r w_r", Val)
+    i, r = z3.Ints("i_r r_r")
+    return {
+        # proved per shipped linked variable under C07 (row-locality = non-interference over the individual index)
+        "row_locality": z3.ForAll([m, I, J, i], z3.Implies(
+            z3.And(indiv(m), agree_row(I, J, m, i)),
+            z3.ForAll([r], elem(Sem(m, I), i, r) == elem(Sem(m, J), i, r)))),
+        # a value with the individual axis is determined by its entries
+        "extensionality": z3.ForAll([v, w], z3.Implies(
+            z3.And(v != NONE, w != NONE, z3.ForAll([i, r], elem(v, i, r) == elem(w, i, r))), v == w)),
+        # contract of State._select, proved on the real code (unit RevertPartial): entry-wise selection
+        "select": z3.ForAll([v, w, i, r], elem(Blend(v, w), i, r) == z3.If(rowmask(i), elem(v, i, r), elem(w, i, r))),
+        "select_not_none": z3.ForAll([v, w], z3.Implies(z3.And(v != NONE, w != NONE), Blend(v, w) != NONE)),
+        # whether a derived value exists depends only on which independent ancestors are set
+        "definedness_frame": z3.ForAll([m, I, J], z3.Implies(
+            z3.ForAll([a], z3.Implies(z3.And(indep(a), z3.Or(a == m, anc(a, m))), (I[a] == NONE) == (J[a] == NONE))),
+            (Sem(m, I) == NONE) == (Sem(m, J) == NONE))),
+    }
